@@ -7,12 +7,14 @@ import (
 	"bytes"
 	"encoding/base64"
 	"fmt"
+	"math"
 	"reflect"
 	"sort"
 	"strings"
 	"time"
 
 	"github.com/ethereum/go-ethereum/common"
+	"github.com/google/go-cmp/cmp"
 	"github.com/rs/zerolog"
 	"github.com/tendermint/go-amino"
 	abcitypes "github.com/tendermint/tendermint/abci/types"
@@ -130,6 +132,10 @@ type Chain struct {
 	// PersistPlan, if set, gives every replica a state file and its own save schedule: replica i saves in the
 	// Commit of the heights h with (h+Phase) % Period == 0 - what out-of-phase wall-clock timers produce.
 	PersistPlan []persistPlan
+	// RestartPlan: replica i (with a state file) is stopped after the Commit of the heights h with
+	// (h+Phase) % Period == 0 and continued from its state file (Period 0: never).
+	RestartPlan []persistPlan
+	Restarts    int
 	HasHot      bool // most transactions come from HotSender (long histories: per-sender state grows)
 	HotSender     int
 	PoolKeys      int    // how many universe keys candidate configurations may contain (default nKeyperKeys)
@@ -185,8 +191,10 @@ func (c *Chain) compareStates(where string) {
 	s0 := canonApp(c.Reps[0])
 	for i := 1; i < len(c.Reps); i++ {
 		si := canonApp(c.Reps[i])
-		if !reflect.DeepEqual(s0, si) {
-			c.fail("replica-state-diverged", "after %s: replica 0 and %d differ\nhistory: %s", where, i, c.DescString())
+		// fast path first; unexported fields of the application's structs (caches, counters - not persisted,
+		// not consensus state) may differ between processes, so a DeepEqual mismatch is re-examined without them
+		if !reflect.DeepEqual(s0, si) && !cmp.Equal(s0, si, appCmpOpts...) {
+			c.fail("replica-state-diverged", "after %s: replica 0 and %d differ\n%s\nhistory: %s", where, i, cmp.Diff(s0, si, appCmpOpts...), c.DescString())
 		}
 	}
 }
@@ -436,6 +444,20 @@ func (c *Chain) EndBlock() abcitypes.ResponseEndBlock {
 			}
 		}
 		c.guard("Commit", func() { a.Commit() })
+		if i < len(c.RestartPlan) && c.RestartPlan[i].Period > 0 && (c.Height+c.RestartPlan[i].Phase)%c.RestartPlan[i].Period == 0 && a.Gobpath != "" {
+			var nb app.ShutterApp
+			var err error
+			c.guard("restart", func() {
+				if err = a.PersistToDisk(); err == nil {
+					nb, err = app.LoadShutterAppFromFile(a.Gobpath)
+				}
+			})
+			if err != nil {
+				c.fail("restart-failed", "replica %d could not be continued from its state file after block %d: %v\nhistory: %s", i, c.Height, err, c.DescString())
+			}
+			c.Reps[i] = &nb
+			c.Restarts++
+		}
 	}
 	c.compareStates("EndBlock")
 	evs, intended := c.M.EndBlock(c.Height)
@@ -532,6 +554,17 @@ func (c *Chain) refreshPool(t *rapid.T) {
 		}
 		act := last.Activation + uint64(rapid.SampledFrom([]int{0, 0, 1, 3, 10}).Draw(t, "actD"))
 		idx := last.Index + uint64(rapid.SampledFrom([]int{1, 1, 1, 2}).Draw(t, "idxD"))
+		switch rapid.IntRange(0, 23).Draw(t, "idxEdge") {
+		case 0:
+			idx = math.MaxUint64 // the largest index there is: nothing can follow it
+		case 1:
+			idx = math.MaxUint64 - 1
+		case 2:
+			idx = 1 << 63
+		}
+		if rapid.IntRange(0, 23).Draw(t, "actEdge") == 0 {
+			act = rapid.SampledFrom([]uint64{math.MaxUint64, math.MaxUint64 - 1, 1 << 63, 1<<63 - 1}).Draw(t, "actHuge")
+		}
 		if i > 0 && rapid.Bool().Draw(t, "nearTwin") {
 			// a candidate that differs from an earlier one in exactly one field: votes for the two must
 			// never be pooled ("voted for that identical configuration")
